@@ -24,6 +24,8 @@ def unit(name):
 def q(spec):
     """{'v': float, 'u': 'MHz'} -> Quantity"""
     k = spec.get("k")
+    if k and qkind(spec["v"], {"i8": 0, "f4": 1}[k]) != k:
+        k = None  # (a history step changed the value: no longer representable in that dtype)
     if k == "i8":  # the same number held in an integer-dtype Quantity
         return u.Quantity(int(spec["v"]), unit(spec["u"]), dtype=np.int64)
     if k == "f4":
